@@ -486,14 +486,11 @@ func splitHostURI(host, uri []byte) ([]byte, []byte, []byte) {
 	}
 
 	uri = path[len(bytestr.StrSlashSlash):]
-	n := bytes.IndexByte(uri, '/')
+	// The host ends where the path, the query or the fragment begins, whichever comes
+	// first (urls like foobar.com?a=b/c or foobar.com#/frag have no slash after the host;
+	// a slash further on belongs to the query or the fragment).
+	n := bytes.IndexAny(uri, "/?#")
 	if n < 0 {
-		// A hack for bogus urls like foobar.com?a=b without
-		// slash after host (or foobar.com#frag: the host ends where the query or the
-		// fragment begins, whichever comes first).
-		if n = bytes.IndexAny(uri, "?#"); n >= 0 {
-			return scheme, uri[:n], uri[n:]
-		}
 		return scheme, uri, bytestr.StrSlash
 	}
 	return scheme, uri[:n], uri[n:]
